@@ -92,6 +92,8 @@ REFINE = {
  'C10': '`monitor_silent_on_model`',
  'C16': 'pppoesrv: `monitor_silent_on_model` (+ timed layer `timed_projects`); teardown: `per_session_clauses_silent_on_model` (not-terminated clauses: runs only); dhcpterm: `Spec.C16DhcpMon.monitor_silent_on_model` (all clauses, histories with atomic establishment); submgr: runs only',
  'C19': 'over-admit monitor proved sound (`over_admit_monitor_sound`)',
+ 'C20': 'qinq: `Spec.C20QinqMon.monitor_silent_on_model`; vlan, pppsess, index, circuitkey: runs only',
+ 'C05': 'bitmap: `bitmap_refines_poolspec`; pppoesrv: `monitor_silent_on_model` (+ parked histories `monitor_silent_on_parked_histories`)',
 }
 TRANSL = {'C04': 'extractguards', 'C06': 'extractlayout', 'C11': 'extractfsm (+ reference tables for the search)', 'C16': 'extractpaths'}
 rows = []
@@ -109,7 +111,10 @@ for i in range(1, 21):
     exp = '/verif/checks/expect/%s.txt' % pid
     nth = len(open(exp).read().split()) if os.path.exists(exp) else 0
     nk = len([x for x in d if x['status'] == 'known' and pid in x.get('properties', [x.get('property')])])
-    rows.append('| %s | %s | %s | %d | %s | %s | %d |' % (pid, comps, specs, nth, TRANSL.get(pid, '—'), REFINE.get(pid, 'runs only'), nk))
+    tr = [TRANSL[pid]] if pid in TRANSL else []
+    if 'Locks' in specs:
+        tr.append('extractlocks')
+    rows.append('| %s | %s | %s | %d | %s | %s | %d |' % (pid, comps, specs, nth, ', '.join(tr) or '—', REFINE.get(pid, 'runs only'), nk))
 sec7 = '''### 0.7 Per property: components, theorems, ties (generated by `tools/mkdesign.py`)
 
 "Theorems" = pinned obligation set of the property's Spec modules (every one audited for axioms on every run). "Monitor" = what is
